@@ -291,6 +291,9 @@ impl Encoder for GossipsubCodec {
     }
 }
 
+/// The maximum number of bytes of an unsigned varint length prefix.
+const MAX_LENGTH_PREFIX_BYTES: usize = 10;
+
 /// Validate RPC limits by parsing the wire format without allocating.
 fn validate_rpc_limits(
     mut buf: &[u8],
@@ -298,17 +301,30 @@ fn validate_rpc_limits(
     max_publish_messages: usize,
     max_control_message_size: usize,
 ) -> io::Result<bool> {
+    let buffered_length = buf.len();
+
+    // Consume length prefix and get message bytes from length-prefixed buffer for validation
+    if !consume_message_prefix(&mut buf)? {
+        // The first message is still incomplete. Its length prefix takes at most
+        // `MAX_LENGTH_PREFIX_BYTES`, so once more than a maximum-size message plus a prefix is
+        // buffered, the message itself exceeds the limit: stop buffering it.
+        if buffered_length > max_message_size.saturating_add(MAX_LENGTH_PREFIX_BYTES) {
+            return Err(io::Error::new(
+                io::ErrorKind::InvalidData,
+                format!("message exceeds maximum of {max_message_size}b"),
+            ));
+        }
+        return Ok(false);
+    }
+
+    // The limit applies to this message alone: neither its length prefix nor any further
+    // messages already buffered behind it count towards it.
     let message_length = buf.len();
     if message_length > max_message_size {
         return Err(io::Error::new(
             io::ErrorKind::InvalidData,
             format!("message with {message_length}b exceeds maximum of {max_message_size}b",),
         ));
-    }
-
-    // Consume length prefix and get message bytes from length-prefixed buffer for validation
-    if !consume_message_prefix(&mut buf)? {
-        return Ok(false);
     }
 
     let mut publish_count = 0;
